@@ -170,7 +170,7 @@ func (z *BigInt) innerOrNilOrAlias(tmp *big.Int, a *BigInt, ai *big.Int) *big.In
 // care.
 //gcassert:inline
 func (z *BigInt) updateInner(src *big.Int) {
-	if z._inner == src {
+	if z._inner == src && src.Sign() != 0 {
 		return
 	}
 
@@ -199,7 +199,11 @@ func (z *BigInt) updateInner(src *big.Int) {
 		// Set or unset the negative sentinel, according to the argument's sign.
 		// We use unsafe because (*big.Int).Sign is too complex and prevents
 		// this method from being inlined.
-		if (*intStruct)(unsafe.Pointer(src)).neg {
+		// Use Sign rather than the raw neg field: math/big can leave the field
+		// set on a zero value (the cofactors of GCD), and a zero is never negative.
+		// For the same reason a heap value that became zero is moved back inline
+		// (see the check at the top) instead of being kept as math/big left it.
+		if src.Sign() < 0 {
 			z._inner = negSentinel
 		} else {
 			z._inner = nil
